@@ -126,9 +126,15 @@ def check(ctx):
             'no return/throw among the checks' if not early else f'early exit in FinalConstruct(): {early}')
     # the function is declared and defined (shared with C06.pair)
     b = prog.cls('adv_shell', 'Builder')
+    from .shared import shell_frame_anchors, frame_entities
+    fa = shell_frame_anchors(ctx)
     for meth, attr in (('_create_headerfile', 'as_decl'), ('_create_sourcefile', 'as_def')):
         m = b.methods.get(meth)
-        ok = m is not None and f'final_construct_fn.{attr}' in ast.unparse(m.node)
+        if fa is not None:
+            ok = 'final_construct_fn' in frame_entities(fa['header' if attr == 'as_decl' else 'source'],
+                                                        'initialization' if attr == 'as_decl' else 'contents')
+        else:
+            ok = m is not None and f'final_construct_fn.{attr}' in ast.unparse(m.node)
         run.add('C10.encapsulee', 'dznpy.adv_shell', f'Builder.{meth}', f'final_construct_fn.{attr}', ok,
                 f'FinalConstruct() is emitted ({attr})' if ok else f'FinalConstruct() is not emitted ({attr})')
 
